@@ -423,12 +423,10 @@ func (s *Server) getConn(l *coapNet.UDPConn, raddr *net.UDPAddr, laddr *net.UDPA
 		if s.cfg.OnNewConn != nil {
 			s.cfg.OnNewConn(cc)
 		}
-	} else if cc.Context().Err() == nil {
-		// a received datagram is activity of the peer: extend the expiration time. Whether the connection has
-		// expired is decided by the periodic housekeeping only; evaluating the monitor here as well would count
-		// the datagram that proves the peer alive (e.g. the pong of a keep-alive ping) as one more inactivity.
-		cc.InactivityMonitor().Notify()
 	}
+	// Looking a connection up is not activity of the peer: a received datagram is reported to the inactivity
+	// monitor by cc.Process, and Server.NewConn - the application's own doing - must not keep a silent peer alive.
+	// Whether the connection has expired is decided by the periodic housekeeping only.
 
 	if cc.Context().Err() != nil {
 		// connection is closed so we need to create new one
